@@ -36,8 +36,21 @@ def gen_ast(rng, depth):
     if r < 0.92: return ("list", [gen_ast(rng, depth - 1) for _ in range(rng.randint(0, 3))])
     return ("map", [(gen_ast(rng, depth - 1), gen_ast(rng, depth - 1)) for _ in range(rng.randint(0, 2))])
 
-def render_full(t, rng=None):
-    """fully parenthesised rendering: the intended tree is unambiguous whatever the precedence rules"""
+def render_full(t, rng=None, elems=False):
+    """fully parenthesised rendering: the intended tree is unambiguous whatever the precedence rules
+    (elems: call arguments, list elements, map keys and values that are not atoms are parenthesised as well)"""
+    if elems:
+        k = t[0]
+        e = lambda x: render_full(x, rng, True) if x[0] in ("lit", "ref", "call", "list", "map") else "(" + render_full(x, rng, True) + ")"
+        if k == "call": return t[1] + "(" + ", ".join(e(a) for a in t[2]) + ")"
+        if k == "list": return "[" + ", ".join(e(a) for a in t[1]) + "]"
+        if k == "map": return "{" + ", ".join(e(a) + " : " + e(b) for a, b in t[1]) + "}"
+        if k == "un": return t[1] + " " + e(t[2])
+        if k == "bin": return e(t[2]) + " " + t[1] + " " + e(t[3])
+        if k == "nbin": return e(t[2]) + " not " + t[1] + " " + e(t[3])
+        if k == "post": return e(t[1]) + " " + t[2]
+        if k == "tern": return e(t[1]) + " ? " + e(t[2]) + " : " + e(t[3])
+        return t[1]
     k = t[0]
     def p(x):
         s = render_full(x, rng)
